@@ -8,6 +8,9 @@ open Jomini.Props.C01
 #print axioms C01_step_blank_partial
 #print axioms C01_step_blank_key_open
 #print axioms C01_step_blank_parseopen_open
+#print axioms C01_faithful_flat_partial
+#print axioms C01_faithful_flat_positions_partial
+#print axioms C01_layout_independent_flat_partial
 #print axioms C01_C06_text_checker_sound
 #print axioms C01_C06_text_inv
 #print axioms C01_C19_quote_not_extended
